@@ -1,0 +1,102 @@
+//go:build verif
+
+/*
+Copyright 2025 The Volcano Authors.
+
+Licensed under the Apache License, Version 2.0 (the "License");
+you may not use this file except in compliance with the License.
+You may obtain a copy of the License at
+
+    http://www.apache.org/licenses/LICENSE-2.0
+
+Unless required by applicable law or agreed to in writing, software
+distributed under the License is distributed on an "AS IS" BASIS,
+WITHOUT WARRANTIES OR CONDITIONS OF ANY KIND, either express or implied.
+See the License for the specific language governing permissions and
+limitations under the License.
+*/
+
+// Verification hook: only adds exported wrappers around the unexported TTL
+// helpers and a constructor wired like newFakeController of the package's own
+// tests. Compiled only with the build tag `verif`.
+package garbagecollector
+
+import (
+	"time"
+
+	"k8s.io/client-go/util/workqueue"
+
+	"volcano.sh/apis/pkg/apis/batch/v1alpha1"
+	vcclientset "volcano.sh/apis/pkg/client/clientset/versioned"
+	informerfactory "volcano.sh/apis/pkg/client/informers/externalversions"
+	"volcano.sh/volcano/pkg/controllers/framework"
+)
+
+// VerifEnqueue is one call the controller made on its work queue.
+type VerifEnqueue struct {
+	Key string
+	// Delayed is true for AddAfter (the TTL requeue), false for Add.
+	Delayed bool
+	After   time.Duration
+}
+
+// verifQueue records Add / AddAfter instead of arming timers.
+type verifQueue struct {
+	workqueue.TypedRateLimitingInterface[string]
+	v *VerifController
+}
+
+func (q *verifQueue) Add(key string) {
+	q.v.Enqueued = append(q.v.Enqueued, VerifEnqueue{Key: key})
+}
+
+func (q *verifQueue) AddAfter(key string, d time.Duration) {
+	q.v.Enqueued = append(q.v.Enqueued, VerifEnqueue{Key: key, Delayed: true, After: d})
+}
+
+// VerifController gives access to an initialized gccontroller.
+type VerifController struct {
+	gc       *gccontroller
+	Enqueued []VerifEnqueue
+}
+
+// NewVerifController initializes the controller with the given (fake) client;
+// the lister is backed by the informer's indexer, filled with AddToLister.
+func NewVerifController(vcClient vcclientset.Interface) *VerifController {
+	gc := &gccontroller{}
+	opt := &framework.ControllerOption{
+		VolcanoClient:           vcClient,
+		VCSharedInformerFactory: informerfactory.NewSharedInformerFactory(vcClient, 0),
+	}
+	if err := gc.Initialize(opt); err != nil {
+		panic(err)
+	}
+	v := &VerifController{gc: gc}
+	gc.queue = &verifQueue{TypedRateLimitingInterface: gc.queue, v: v}
+	return v
+}
+
+// AddToLister puts a Job into the store behind gc.jobLister.
+func (v *VerifController) AddToLister(job *v1alpha1.Job) error {
+	return v.gc.jobInformer.Informer().GetIndexer().Add(job)
+}
+
+func (v *VerifController) ProcessJob(key string) error { return v.gc.processJob(key) }
+
+func (v *VerifController) ProcessTTL(job *v1alpha1.Job) (bool, error) { return v.gc.processTTL(job) }
+
+func (v *VerifController) AddJob(obj interface{}) { v.gc.addJob(obj) }
+
+func (v *VerifController) UpdateJob(old, cur interface{}) { v.gc.updateJob(old, cur) }
+
+func VerifNeedsCleanup(j *v1alpha1.Job) bool { return needsCleanup(j) }
+
+func VerifIsJobFinished(j *v1alpha1.Job) bool { return isJobFinished(j) }
+
+func VerifGetFinishAndExpireTime(j *v1alpha1.Job) (*time.Time, *time.Time, error) {
+	return getFinishAndExpireTime(j)
+}
+
+func VerifTimeLeft(j *v1alpha1.Job, since *time.Time) (*time.Duration, error) {
+	return timeLeft(j, since)
+}
